@@ -62,6 +62,10 @@ func c05Jobs(tier string) []string {
 		add(fmt.Sprintf("or=r,devs=,mss=100,w=1500,silent=%d,b=0", k), 1)
 	}
 	add("or=r,devs=lh,mss=100,w=500,silent=2,b=1", 1)
+	// writes spread over time, one ACK late, the next withheld: the retransmission timer must be
+	// restarted by the partial ACK, or it fires too early for the segment sent later
+	add("or=r,devs=hy,mss=100,w=100+100+100,wgap=150,b=2", 2)
+	add("or=r,devs=hyl,mss=100,w=100+100+100+100,wgap=120,b=2", 4)
 	// a timeout with a backlog (more written than the window lets out), then a loss among the
 	// segments first sent after it: a new episode, fast retransmit is due again
 	add("or=r,devs=l,mss=100,w=3000,silent=1,b=1", 2)
